@@ -42,6 +42,17 @@ def cases(tier):
         s["hist"] = hist
         s["id"] = {"sites": list(sites), "area": area, "cd": cd, "win": list(win), "dm": dm, "high": high, "hist": hist, "hyd": hyd, "rev": list(rev)}
         out.append(s)
+    # gauge pressures of millimetres to centimetres (just above the 0.1 mm smoothing band): a leaking junction whose
+    # elevation lies that far below the reservoir head, fed through a short wide pipe (no demand: the pressure is the offset)
+    for off, (area, cd), dm in itertools.product((2e-4, 1e-3, 5e-3, 2e-2, 0.5), ac, ("DD", "PDD")):
+        o = OPTS(dur=3600, hyd=3600, rep="ALL", dm=dm)
+        if dm == "PDD":
+            o.update(pmin=0.0, preq=25.0, pexp=0.5)
+        s = spec([R("R", 50.0), J("J1", 50.0 - off, [[0.0, None, None]])], [P("p1", "R", "J1", L=1.0, D=2.0)], o)
+        s["leaks"] = [{"node": "J1", "area": area * 1e-2, "cd": cd, "start": 0, "end": None}]
+        s["hist"] = "add"
+        s["id"] = {"sites": ["J1-shallow-%g" % off], "area": area * 1e-2, "cd": cd, "win": [0, None], "dm": dm, "high": False, "hist": "add", "hyd": 3600, "rev": []}
+        out.append(s)
     # a leaking dead-end junction that is cut off from every source while its leak is active (its only pipe is closed at 2 h
     # and reopened at 3 h): reported pressure 0 => leak 0, and the formula again after reconnection
     for (area, cd), win, dm, hyd, rv in itertools.product(ac, WINDOWS, ("DD", "PDD"), (3600, 1800), (False, True)):
